@@ -1,10 +1,12 @@
 import GomlVerif.Driver.C05
+import GomlVerif.Driver.C10
 import GomlVerif.Driver.C15
 import GomlVerif.Driver.SemRun
 
 def main (args : List String) : IO UInt32 := do
   match args with
   | ["c05"] => Goml.Driver.C05.main; return 0
+  | ["c10"] => Goml.Driver.C10.main; return 0
   | ["c15"] => Goml.Driver.C15.main; return 0
   | ["sem"] => Goml.Driver.SemRun.main; return 0
   | _ => IO.eprintln "usage: gomlmodel <c05|…> < lines"; return 2
